@@ -5,13 +5,50 @@
 // args: threshold share_count
 #include "src/crypto/Shamir.cpp"
 #include <cstdio>
+#include <string>
+#include <vector>
 #include <cstdlib>
 #include <csignal>
 #include <new>
 #include <sys/resource.h>
 #include <unistd.h>
 static void on_alarm(int) { const char m[] = "REPRODUCED: split did not terminate within 10 s\n"; (void)!write(1, m, sizeof m - 1); _exit(1); }
+// combine mode: args "combine threshold count index0 value0 index1 value1 ..." -- shares whose value is (value_k, 0, ..., 0); the
+// REAL Shamir::combine must raise invalid_argument when count < threshold or two of the first `threshold` shares have the same
+// index, and must succeed otherwise
+static int replay_combine(int argc, char** argv) {
+    if (argc < 4) return 2;
+    const auto t = static_cast<std::uint8_t>(std::strtoul(argv[2], nullptr, 0));
+    const auto n = std::strtoul(argv[3], nullptr, 0);
+    std::vector<ephemeralnet::crypto::ShamirShare> shares;
+    for (unsigned long k = 0; k < n && 5 + 2 * k < static_cast<unsigned long>(argc); k++) {
+        ephemeralnet::crypto::ShamirShare s{};
+        s.index = static_cast<std::uint8_t>(std::strtoul(argv[4 + 2 * k], nullptr, 0));
+        s.value[0] = static_cast<std::uint8_t>(std::strtoul(argv[5 + 2 * k], nullptr, 0));
+        shares.push_back(s);
+    }
+    bool dup = false;
+    for (std::size_t i = 0; i < shares.size() && i < t; i++) for (std::size_t j = 0; j < i; j++) dup = dup || shares[i].index == shares[j].index;
+    const bool must_throw = shares.size() < t || dup;
+    std::printf("combine(threshold=%u, %zu shares:", t, shares.size());
+    for (const auto& s : shares) std::printf(" (index %u, value %u 0...)", s.index, s.value[0]);
+    std::printf(") ");
+    try {
+        const auto secret = ephemeralnet::crypto::Shamir::combine(shares, t);
+        if (must_throw) { std::printf("REPRODUCED: returned a 'secret' starting %u although %s\n", secret[0], dup ? "two of the shares used have the same index" : "there are fewer than threshold shares"); return 1; }
+        std::printf("returned a secret\n");
+        return 0;
+    } catch (const std::invalid_argument& e) {
+        if (!must_throw) { std::printf("REPRODUCED: raised invalid_argument (%s) for enough shares with distinct indices\n", e.what()); return 1; }
+        std::printf("raised invalid_argument (%s)\n", e.what());
+        return 0;
+    } catch (const std::exception& e) {
+        std::printf("REPRODUCED: raised %s, not invalid_argument\n", e.what());
+        return 1;
+    }
+}
 int main(int argc, char** argv) {
+    if (argc >= 2 && std::string(argv[1]) == "combine") return replay_combine(argc, argv);
     if (argc < 3) return 2;
     const auto t = static_cast<std::uint8_t>(std::strtoul(argv[1], nullptr, 0));
     const auto n = static_cast<std::uint8_t>(std::strtoul(argv[2], nullptr, 0));
